@@ -4,6 +4,11 @@
 import json, os, re, subprocess, sys
 V = os.path.dirname(os.path.dirname(os.path.abspath(__file__)))
 letters = sys.argv[1] if len(sys.argv) > 1 else "ghijklmnopqrstuvwxyz"
+FM = set()
+try:
+    for l in open(os.path.join(V, "seeded", "FIRST_MISSED.txt")):
+        if not l.startswith("#"): FM.update(l.split())
+except Exception: pass
 def first_sentence(s, n):
     s = re.sub(r"\s+", " ", s or "").strip().replace("|", "/")
     m = re.search(r"(?<=[a-z0-9\)])\. ", s)
@@ -28,11 +33,11 @@ for d in sorted(os.listdir(os.path.join(V, "seeded"))):
     # first committed verdict
     rel = f"seeded/{d}/detection.json"
     h = subprocess.run(["git", "-C", V, "log", "--diff-filter=A", "--format=%h", "--", rel], capture_output=True, text=True).stdout.split()
-    first_missed = False
+    first_missed = d in FM
     if h:
         try:
             j0 = json.loads(subprocess.run(["git", "-C", V, "show", f"{h[-1]}:{rel}"], capture_output=True, text=True).stdout)
-            first_missed = verdict(j0)[0] is None
+            first_missed = first_missed or verdict(j0)[0] is None
         except Exception: pass
     summ = meta.get("summary") or meta.get("what") or meta.get("description") or ""
     needs = meta.get("needs_to_manifest") or meta.get("needs") or ""
